@@ -32,7 +32,7 @@ def run(ck: Check):
     thorough = ck.tier == "thorough"
     ck.rule(
         "per detector: random configuration and structured stream; a dry run locates each phase (warm-up, in control, warning, drift, right after drift, "
-        "right after an internal rebuild, mid-stream); for each phase the detector is reset there and then fed a fresh suffix, and compared step by step "
+        "right after an internal rebuild, mid-stream); for each phase the detector is reset there (in 40% of the cases after an earlier use/reset cycle, so that the reset under test is the second one) and then fed a fresh suffix, and compared step by step "
         "(flags, counters, statistics) with a newly constructed instance fed the same suffix; non-trivial = pre-reset history contained an alarm or post-reset suffix alarms"
     )
     corr = []
@@ -48,7 +48,14 @@ def run(ck: Check):
             ph = phases(det, cfg, xs)
             for phase, k in ph.items():
                 suffix = gen_ops(rng, det, cfg, rng.choice([10, 30, 60]) if det.name != "BOCD" else 20, resets=False)
-                ops = xs[:k] + ["R"] + suffix
+                pre_ops = xs[:k]
+                if rng.random() < 0.4 and not isinstance(det, KSWINDet):
+                    # an earlier use / reset cycle first: state leaking into whatever reset() re-installs only
+                    # shows from the SECOND reset on
+                    pre_ops = gen_ops(rng, det, cfg, rng.choice([5, 40]) if det.name != "BOCD" else 10, resets=False) + ["R"] + pre_ops
+                    ck.count("double_reset_cases")
+                ops = pre_ops + ["R"] + suffix
+                k = len(pre_ops)
                 seed2 = rng.randrange(10**6)
                 if isinstance(det, KSWINDet):
                     # re-seed NumPy's generator right after the reset / right after construction
@@ -93,14 +100,14 @@ def run(ck: Check):
                 if d0 is not None:
                     ck.violation(
                         dict(clause="reset-state", detector=det.name),
-                        dict(what="state right after reset() differs from a new instance", detector=det.name, config=cfg, prefix=xs[:k], phase=phase, after_reset=after_reset, fresh=fresh0, diff=str(d0)),
+                        dict(what="state right after reset() differs from a new instance", detector=det.name, config=cfg, prefix=pre_ops, phase=phase, after_reset=after_reset, fresh=fresh0, diff=str(d0)),
                     )
                     continue
                 dd = compare_traces(post, fresh)
                 if dd is not None:
                     ck.violation(
                         dict(clause="reset-behaviour", detector=det.name),
-                        dict(what="outputs after reset() differ from a new instance", detector=det.name, config=cfg, prefix=xs[:k], suffix=suffix[: dd[0] + 1], phase=phase, step=dd[0], diff=dd[1]),
+                        dict(what="outputs after reset() differ from a new instance", detector=det.name, config=cfg, prefix=pre_ops, suffix=suffix[: dd[0] + 1], phase=phase, step=dd[0], diff=dd[1]),
                     )
     # PrequentialError
     from frouros.metrics import PrequentialError
